@@ -329,3 +329,81 @@ Section Log.
   Definition debug_log_in (e : event) : str :=
     t_lt ++ (if ev_echo e then t_echo else []) ++ strip_raw (event_bytes e).
 End Log.
+
+(* ---- what a session prints ------------------------------------------------
+   One record per logged event: the line handed to Config.Debug and the lines handed to
+   Config.Out.  Outgoing events are logged by sendLoop (debugLogEvent), every event
+   execLoop dequeues by RunHandlers -- including the ERROR a handler injects. *)
+Section SessionLog.
+  Variable strip_raw : str -> str.
+  Variable pretty_rest : event -> option str.
+
+  Definition write_log (e : event) : str * list str :=
+    (debug_log strip_raw false e, out_log strip_raw pretty_rest e).
+  Definition recv_log (e : event) : str * list str :=
+    (debug_log_in strip_raw e, out_log strip_raw pretty_rest e).
+  Definition output_log (o : output) : str * list str :=
+    match o with
+    | Write e => write_log e
+    | InjectError t => recv_log (error_event t)
+    end.
+
+  (* registration (internalConnect) *)
+  Definition registration_log (c : config) : list (str * list str) :=
+    List.map write_log (registration_writes c).
+
+  (* the events of a history, fed one by one as in `run`; nothing is dequeued any more
+     once Connect has returned *)
+  Fixpoint session_log (c : config) (cn : conn) (h : list event) : list (str * list str) :=
+    match h with
+    | [] => []
+    | e :: h' =>
+      match feed c cn e with
+      | Ok (cn1, outs) =>
+        (match cn_returned cn with
+         | None => recv_log e :: List.map output_log outs
+         | Some _ => []
+         end) ++ session_log c cn1 h'
+      | Panic => []
+      end
+    end.
+End SessionLog.
+
+(* ---- stateful mechanisms ------------------------------------------------------
+   A Go SASLMech may keep state between calls (challenge-response mechanisms do): Method
+   and Encode may answer differently every time.  A history is then a list of steps, each
+   pairing the server's event with the mechanism as it behaves at that step. *)
+Definition set_sasl (c : config) (m : sasl_mech) : config :=
+  mkCfg (Some m) (cfg_server_pass c) (cfg_webirc c) (cfg_tracking c)
+        (cfg_nick c) (cfg_user c) (cfg_name c).
+
+Fixpoint run_stateful (c : config) (cn : conn) (steps : list (sasl_mech * event))
+  : res (conn * list output) :=
+  match steps with
+  | [] => Ok (cn, [])
+  | (m, e) :: r =>
+    x <- feed (set_sasl c m) cn e ;;
+    y <- run_stateful c (fst x) r ;;
+    Ok (fst y, snd x ++ snd y)
+  end.
+
+(* what a session with a stateful mechanism prints (session_log over run_stateful's steps) *)
+Section SessionLogStateful.
+  Variable strip_raw : str -> str.
+  Variable pretty_rest : event -> option str.
+
+  Fixpoint session_log_stateful (c : config) (cn : conn) (steps : list (sasl_mech * event))
+    : list (str * list str) :=
+    match steps with
+    | [] => []
+    | (m, e) :: r =>
+      match feed (set_sasl c m) cn e with
+      | Ok (cn1, outs) =>
+        (match cn_returned cn with
+         | None => recv_log strip_raw pretty_rest e :: List.map (output_log strip_raw pretty_rest) outs
+         | Some _ => []
+         end) ++ session_log_stateful c cn1 r
+      | Panic => []
+      end
+    end.
+End SessionLogStateful.
